@@ -56,6 +56,34 @@ pub fn main(args: &[String]) -> i32 {
                 }
             }
             "garbage" => pat = gen::garbage(&mut rng, 24),
+            "names" => {
+                // category and block names: valid ones, every kind of near miss
+                let letters: Vec<char> = "LMNPZSCulotmcdeksifpnaIX".chars().collect();
+                let blocks = ["BasicLatin", "Greek", "GreekandCoptic", "Latin-1Supplement", "LatinExtended-A", "Cyrillic",
+                    "Deseret", "PrivateUse", "CombiningMarksforSymbols", "HighSurrogates", "CJKUnifiedIdeographs", "Tags",
+                    "SupplementaryPrivateUseArea-B", "Specials", "Arrows"];
+                let neg = if rng.chance(30) { 'P' } else { 'p' };
+                pat = match rng.below(6) {
+                    0 => format!("\\{}{{{}}}", neg, rng.pick(&letters)),
+                    1 | 2 => format!("\\{}{{{}{}}}", neg, rng.pick(&letters), rng.pick(&letters)),
+                    3 => format!("\\{}{{Is{}}}", neg, rng.pick(&blocks)),
+                    4 => {
+                        let b: Vec<char> = rng.pick(&blocks).chars().collect();
+                        let i = rng.below(b.len());
+                        let mut m = b.clone();
+                        match rng.below(4) {
+                            0 => {
+                                m.remove(i);
+                            }
+                            1 => m[i] = if m[i].is_uppercase() { m[i].to_ascii_lowercase() } else { m[i].to_ascii_uppercase() },
+                            2 => m.insert(i, ' '),
+                            _ => m.push('s'),
+                        }
+                        format!("\\{}{{Is{}}}", neg, m.into_iter().collect::<String>())
+                    }
+                    _ => format!("[\\{}{{{}{}}}a]", neg, rng.pick(&letters), rng.pick(&letters)),
+                };
+            }
             "bounds" => {
                 let body = *rng.pick(&bounds_bodies);
                 let n = *rng.pick(&bounds_nums);
